@@ -1,5 +1,6 @@
 import Driver.Util
 import Torf.Model.Handles
+import Torf.Model.Missing
 open Lean Torf Torf.Handles
 namespace Driver.C19
 
@@ -49,9 +50,36 @@ def outJson : Out Nat Dig → Json
   | .none => jobj [("k", "none")]
   | .err e => jobj [("k", "err"), ("v", jstr (errName e))]
 
+/-- a stored digest sent by the harness: `[flag, a, b]` = the digest of the stream bytes `[a, b)`,
+    bitwise complemented when `flag ≠ 0` -/
+def parseDig (flat : List Nat) (j : Json) : Except String Dig := do
+  match (← (j.getArr?)).toList with
+  | [f, a, b] =>
+    let f ← f.getNat?
+    let a ← a.getNat?
+    let b ← b.getNat?
+    return (f, (flat.drop a).take (b - a))
+  | _ => throw "bad stored digest"
+
+/-- a history step: an operation, or `{"op":"setHashes","stored":[[flag,a,b],…]}` -/
+def parseStep (flat : List Nat) (j : Json) : Except String (Step Dig) := do
+  let name ← getStr j "op"
+  if name == "setHashes" then
+    return .setStored (← (← getArr j "stored").mapM (parseDig flat))
+  else
+    return .op (← parseOp j)
+
+/-- the specification's answers along a history with hash replacements -/
+def specAllS (files : List (List Nat)) (L : Nat) (H : List Nat → Dig) :
+    List Dig → List (Step Dig) → List (Out Nat Dig)
+  | _, [] => []
+  | st, .op o :: ss => specOut files L H st o :: specAllS files L H st ss
+  | _, .setStored hs :: ss => .none :: specAllS files L H hs ss
+
 /-- op `c19.history` : {L, sizes, cap, ops, wrong : [piece indexes whose stored hash is wrong],
-    fix? : Bool} ↦ per operation the model's answer `m`, the specification's answer `s`
+    fix? : Bool} ↦ per step the model's answer `m`, the specification's answer `s`
     (null when equal to `m`) and the size of the handle table afterwards `nopen`;
+    a step is an operation or a replacement of the stored hashes (`setHashes`);
     `hyp` = piece length ≥ 1 and no zero-length file (the arithmetic geometry is then the
     code's geometry; zero-length files are C11's business). -/
 def history (j : Json) : Except String Json := do
@@ -60,24 +88,46 @@ def history (j : Json) : Except String Json := do
   let cap ← getNat j "cap"
   let wrong := (getNats j "wrong").toOption.getD []
   let fix := (getBool j "fix").toOption.getD true
-  let ops ← (← getArr j "ops").mapM parseOp
   let files := mkFiles sizes
+  let steps ← (← getArr j "ops").mapM (parseStep files.flatten)
   let H : List Nat → Dig := fun p => (0, p)
   let stored : List Dig := (chunks L files.flatten).zipIdx.map fun (p, i) =>
     if wrong.contains i then (1, p) else (0, p)
   let c : Cfg Nat Dig :=
     { files := files, L := L, cap := cap, geom := geomArith sizes L, H := H, stored := stored,
       fix := fix }
-  let res := runAll c ops []
-  let rows := (ops.zip res).map fun (op, (o, n)) =>
-    let s := specOut files L H stored op
+  let res := runAllS c steps []
+  let spec := specAllS files L H stored steps
+  let rows := (res.zip spec).map fun ((o, n), s) =>
     jobj [("m", outJson o), ("s", if s == o then Json.null else outJson s), ("nopen", jnat n)]
   return jobj [("rows", jarr rows), ("hyp", jbool (L > 0 && sizes.all (· > 0))),
                ("npieces", jnat (nPieces L sizes.sum))]
 
+/-- op `c19.damagedIter` : {L, sizes, disk : ["ok" | "missing" | actual size]} ↦ the items of a
+    complete `iter_pieces()` on that disk according to `iterDamaged true` (= `Missing.iterItems`),
+    `null` when the model says an internal error escapes; an abandoned iteration takes a prefix -/
+def damagedIter (j : Json) : Except String Json := do
+  let L ← getNat j "L"
+  let sizes ← getNats j "sizes"
+  let states ← getArr j "disk"
+  let disk : List (Option (List Nat)) ← (sizes.zip states).zipIdx.mapM fun ((sz, st), i) =>
+    match st with
+    | .str "ok" => pure (some ((List.range sz).map fun k => i * elemBase + k))
+    | .str "missing" => pure none
+    | .num n => pure (some ((List.range n.mantissa.toNat).map fun k => i * elemBase + k))
+    | _ => throw "bad disk state"
+  let kind : Missing.ErrKind → String | .read => "read" | .size => "size"
+  let r := (iterDamaged true L sizes disk {}).1
+  return jobj [("items", match r with
+    | none => Json.null
+    | some its => jarr (its.map fun it =>
+        jobj [("data", jopt pieceJson it.data),
+              ("excs", jarr (it.excs.map fun (k, e) => jarr [jnat k, jstr (kind e)]))]))]
+
 def handle (op : String) (j : Json) : Except String Json :=
   match op with
   | "c19.history" => history j
+  | "c19.damagedIter" => damagedIter j
   | _ => throw s!"unknown op {op}"
 
 end Driver.C19
